@@ -28,6 +28,8 @@ def dispatch (op : String) (payload : Json) : R Json :=
   | "file_decision" => C11.handleDecision payload
   | "is_name" => C11.handleIsName payload
   | "no_crash_shape" => C07.handle payload
+  | "no_crash_shape_file" => C07File.handle payload
+  | "no_crash_shape_pipeline" => C07File.handlePipeline payload
   | "root_context" => File.handleRoot payload
   | "analyse_file" => File.handleFile payload
   | "pipeline" => Pipeline.handle payload
